@@ -3,6 +3,7 @@ package checks
 import (
 	"fmt"
 	"strconv"
+	"strings"
 
 	sdk "github.com/pokt-network/pocket-core/types"
 )
@@ -88,14 +89,30 @@ func init() {
 						res.viol("lifecycle/not-paid-when-due", desc+": completion time reached but the node is still unstaking")
 						continue
 					}
+					if exists {
+						// due in this block: the record no longer exists afterwards (a stake request of an unstaking node
+						// is refused, and a new stake of the same key can only come in a later block)
+						res.viol("lifecycle/record-survives-completion", desc+": completion time reached, but a record of the node still exists after the block")
+					}
 					out := p["output"]
 					if out == "" {
 						out = name
 					}
 					if !signed[out] {
 						d := cur.Bal[out] - prev.Bal[out]
-						if d != atoi(p["tokens"]) {
-							res.viol("lifecycle/payout-amount-or-recipient", desc+fmt.Sprintf(": output address %s changed by %d, stake was %s", out, d, p["tokens"]))
+						// a node that is still in the set that signs (two-block update delay) can be slashed in the
+						// BeginBlock of its payout block: it is then paid what is left. Burns are the only way supply
+						// falls in these histories, so the supply decrease bounds what the slash took.
+						punishable := false
+						for _, a := range b.Absent {
+							punishable = punishable || a == name
+						}
+						for _, e := range b.Evidence {
+							punishable = punishable || strings.HasPrefix(e, name)
+						}
+						burned := prev.Supply - cur.Supply
+						if !(d == atoi(p["tokens"]) || (punishable && burned > 0 && d >= atoi(p["tokens"])-burned && d < atoi(p["tokens"]))) {
+							res.viol("lifecycle/payout-amount-or-recipient", desc+fmt.Sprintf(": output address %s changed by %d, stake was %s (supply fell by %d in this block)", out, d, p["tokens"], burned))
 						}
 					}
 					if st["paid:"+name] == true {
@@ -144,6 +161,9 @@ func init() {
 					if exists && c["status"] == "1" {
 						res.viol("lifecycle/app-not-paid-when-due", desc)
 						continue
+					}
+					if exists {
+						res.viol("lifecycle/app-record-survives-completion", desc+": completion time reached, but a record of the application still exists after the block")
 					}
 					if !signed[name] {
 						if d := cur.Bal[name] - prev.Bal[name]; d != atoi(p["tokens"]) {
@@ -196,6 +216,25 @@ func init() {
 						res.viol("slashing/below-minimum-not-queued-to-unstake", desc+fmt.Sprintf(": stake fell below the minimum %d but the node is not queued to unstake", minStake))
 					}
 				}
+			}
+		}
+		// a jail period, once set, is not shortened while the node stays jailed (it may be extended by a further offence)
+		jst := r.monState("slashing")
+		for name, c := range cur.Nodes {
+			if c["jailed"] != "true" {
+				delete(jst, "until:"+name)
+				continue
+			}
+			u := atoi(c["jailed_until"])
+			if old, ok := jst["until:"+name].(int64); ok && u < old {
+				res.viol("slashing/jail-period-shortened", fmt.Sprintf("height %d (block time %d): node %s is jailed; its jailed-until time was %d and is now %d although it was never unjailed: %v", cur.Height, cur.Time, name, old, u, c))
+			} else {
+				jst["until:"+name] = u
+			}
+		}
+		for name := range prev.Nodes {
+			if _, ok := cur.Nodes[name]; !ok {
+				delete(jst, "until:"+name)
 			}
 		}
 		// coins burned == stake removed == supply decrease (the menu has no other burns or mints)
